@@ -5,49 +5,10 @@
 (* definition (so #(definition, assignment) pairs = sum of Len(tab)).        *)
 (* The `Theorems` invariant evaluates spec-level sanity theorems on every    *)
 (* enumerated definition.                                                    *)
-EXTENDS Rules, Json, SequencesExt
-CONSTANTS N,            \* number of fields (names p, q, r, s, t in definition order)
-          Kinds,        \* subset of {"b", "s", "i", "m"}
-          MaxMand,      \* at most this many mandatory ("m") fields
-          MaxReqSets,   \* field p carries <= this many alternative requirement sets ...
-          MaxReqs,      \* ... of <= this many requirements each (with / without allowed values)
-          Owners,       \* 2: field q additionally carries one requirement from a small menu
-          MaxXor,       \* <= this many xor groups ...
-          MinGroup, MaxGroup,   \* ... of this many members, each with / without None
-          Shard, NShards
+EXTENDS RulesEnum, Json
 
 VARIABLES kind, req, xor
 vars == <<kind, req, xor>>
-
-AllNames == <<"p", "q", "r", "s", "t">>
-Names    == SubSeq(AllNames, 1, N)
-NameSet  == Range(Names)
-
-(* subsets with at most k (<= 2) elements, built without enumerating SUBSET S *)
-UpTo(S, k) == {{}} \cup (IF k >= 1 THEN { {x} : x \in S } ELSE {})
-                   \cup (IF k >= 2 THEN { {x, y} : x \in S, y \in S } ELSE {})
-
-KindVecs == { kv \in [NameSet -> Kinds] : Cardinality({ f \in NameSet : kv[f] = "m" }) <= MaxMand }
-KindList == SetToSeq(KindVecs)
-MyKinds  == { KindList[i] : i \in { j \in 1..Len(KindList) : j % NShards = Shard } }
-
-Stringy(kv, g) == kv[g] \in {"s", "m"}
-Atoms(kv, f) == { Req(g) : g \in NameSet \ {f} }
-           \cup { ReqIn(g, {"v"}) : g \in { h \in NameSet \ {f} : Stringy(kv, h) } }
-ReqSets(kv, f) == UpTo(Atoms(kv, f), MaxReqs) \ {{}}
-MainReq(kv)    == UpTo(ReqSets(kv, "p"), MaxReqSets)
-SecondReq(kv)  ==
-  IF Owners < 2 \/ N < 2 THEN {{}}
-  ELSE {{}} \cup { {{Req("p")}} }
-            \cup (IF N >= 3 THEN { {{Req("r")}} } ELSE {})
-            \cup (IF Stringy(kv, "p") THEN { {{ReqIn("p", {"v"})}} } ELSE {})
-ReqChoices(kv) == { [f \in NameSet |-> IF f = "p" THEN a ELSE IF f = "q" THEN b ELSE {}] :
-                      a \in MainReq(kv), b \in SecondReq(kv) }
-
-Groups == { [members |-> M, none |-> b] :
-              M \in { X \in SUBSET NameSet : Cardinality(X) >= MinGroup /\ Cardinality(X) <= MaxGroup },
-              b \in BOOLEAN }
-XorChoices == UpTo(Groups, MaxXor)
 
 Init == /\ kind \in MyKinds
         /\ req \in ReqChoices(kind)
@@ -61,20 +22,28 @@ Enc(a, i) == IF i > N THEN "" ELSE a[Names[i]] \o Enc(a, i + 1)
 Why(B) == (IF "r" \in B THEN "r" ELSE "") \o (IF "x" \in B THEN "x" ELSE "")
        \o (IF "n" \in B THEN "n" ELSE "") \o (IF "m" \in B THEN "m" ELSE "")
 
-AsgList == SetToSeq(Assignments(Def))
+(* the assignments of the definition as a direct product of the per-field menus *)
+(* (= Assignments(Def); the equality is part of Theorems)                        *)
+RECURSIVE Product(_)
+Product(i) == IF i > N THEN { <<>> }
+              ELSE { (Names[i] :> v) @@ t : v \in Menu(kind[Names[i]]), t \in Product(i + 1) }
+
 Case ==
-  [ n   |-> Names,
-    k   |-> kind,
-    req |-> [f \in NameSet |-> SetToSeq({ SetToSeq(rs) : rs \in req[f] })],
-    xor |-> SetToSeq({ [m |-> SetToSeq(g.members), none |-> g.none] : g \in xor }),
-    \* a = assignment, y = broken clauses ("" <=> Executable)
-    tab |-> [i \in 1..Len(AsgList) |-> [a |-> Enc(AsgList[i], 1), y |-> Why(Broken(Def, AsgList[i]))]] ]
+  LET D  == Def
+      as == SetToSeq(Product(1))
+  IN [ n   |-> Names,
+       k   |-> kind,
+       req |-> [f \in NameSet |-> SetToSeq({ SetToSeq(rs) : rs \in req[f] })],
+       xor |-> SetToSeq({ [m |-> SetToSeq(g.members), none |-> g.none] : g \in xor }),
+       \* a = assignment, y = broken clauses ("" <=> Executable)
+       tab |-> [i \in 1..Len(as) |-> [a |-> Enc(as[i], 1), y |-> Why(Broken(D, as[i]))]] ]
 Emit == PrintT(ToJson(Case))
 
 AllUnset == [f \in NameSet |-> IF kind[f] = "b" THEN "F" ELSE "-"]
 Theorems ==
   /\ WellFormedDef(Def)
-  /\ \A a \in Assignments(Def) :
+  /\ Product(1) = Assignments(Def)
+  /\ \A a \in Product(1) :
         /\ Executable(Def, a) <=> Broken(Def, a) = {}
         \* removing a clause family never makes an executable assignment non-executable
         /\ Executable(Def, a) => Executable(NoRequires(Def), a) /\ Executable(NoXor(Def), a)
